@@ -310,8 +310,12 @@ theorem keyed_no_push_after_untrack (s : St) (cid : ConnId) (k : Key) (c' : Conn
         subst h; exact hk
       | some ks =>
         simp only [hc, hk] at h
+        have hms : ∀ st : St, (maybeShutdown st).conns = st.conns := by
+          intro st; unfold maybeShutdown; split <;> rfl
         have hcon : ∀ st : St, (hubRemove st k cid).conns = st.conns := by
-          intro st; unfold hubRemove; simp only; split <;> rfl
+          intro st; unfold hubRemove; simp only; split
+          · rw [hms]
+          · rfl
         rw [hcon] at h
         simp only at h
         rw [alookup_aset_self] at h
@@ -319,8 +323,13 @@ theorem keyed_no_push_after_untrack (s : St) (cid : ConnId) (k : Key) (c' : Conn
         exact alookup_aerase_self _ _
   exact (writePub_spec cid c' k v d prep).2.1 hnone
 
+theorem maybeShutdown_conns (st : St) : (maybeShutdown st).conns = st.conns := by
+  unfold maybeShutdown; split <;> rfl
+
 theorem hubRemove_conns (st : St) (k : Key) (cid : ConnId) : (hubRemove st k cid).conns = st.conns := by
-  unfold hubRemove; simp only; split <;> rfl
+  unfold hubRemove; simp only; split
+  · rw [maybeShutdown_conns]
+  · rfl
 
 theorem foldl_hubRemove_conns (cid : ConnId) (l : List (Key × KeySt)) (st : St) :
     (l.foldl (fun acc kv => hubRemove acc kv.1 cid) st).conns = st.conns := by
@@ -420,12 +429,18 @@ theorem stale_track_rejected (s : St) (p : PendingTrack) (rest : List PendingTra
     (h : s.ptracks = p :: rest) (hc : alookup p.cid s.conns = some c)
     (hg : ¬ (c.subscribed = true ∧ c.gen = p.gen)) :
     (trackCallback s).2 = [Ev.err p.cid 103] ∧ (trackCallback s).1.conns = s.conns ∧
-      (trackCallback s).1.hub = s.hub ∧ (trackCallback s).1.entries = s.entries := by
+      ((trackCallback s).1.hub = s.hub ∨ (trackCallback s).1.hub = []) ∧
+      (trackCallback s).1.entries = s.entries := by
   unfold trackCallback
   simp only [h, hc]
   have : (c.subscribed && c.gen == p.gen) = false := by
     cases hs : c.subscribed <;> simp_all
-  simp [this]
+  simp only [this, Bool.false_eq_true, if_false]
+  refine ⟨trivial, maybeShutdown_conns _, ?_, ?_⟩
+  · unfold maybeShutdown; split
+    · right; rfl
+    · left; rfl
+  · unfold maybeShutdown; split <;> rfl
 
 /-! ## Finding C25-1: a PrevData patch after a racing publish does not apply -/
 
